@@ -73,8 +73,8 @@ theorem C04_source_availability_formulas (p l L : Nat) (hL : 0 < L) :
     its unchecked operations can overflow. -/
 theorem C04_source_advance_wraps_once (p n L c : Nat) (hL : 0 < L) (hn : n ≤ L) (hL63 : L < 2 ^ 63) :
     Gen.advanceLocal.index' (p % L) c 0 L n 0 = (p + n) % L ∧ Gen.advanceLocal.cached' (p % L) c 0 L n 0 = c - n ∧
-    Gen.advanceLocal.safe (p % L) c 0 L n 0 ∧ Gen.skelAdvanceLocal.map (·.name) = [.setLocalIndex, .setLocalIndex, .setCachedAvail] :=
-  ⟨Gen.advanceLocal_index_eq p n L hL hn c 0 0, rfl, Gen.advanceLocal_safe _ _ _ _ _ _ (Nat.mod_lt _ hL) hn hL63, rfl⟩
+    Gen.advanceLocal.safe (p % L) c 0 L n 0 ∧ Gen.advanceLocal.pub' (p % L) c 0 L n 0 = none ∧ Gen.skelAdvanceLocal = [] :=
+  ⟨Gen.advanceLocal_index_eq p n L hL hn c 0 0, Gen.advanceLocal_cached_eq _ _ _ _ _ _, Gen.advanceLocal_safe _ _ _ _ _ _ (Nat.mod_lt _ hL) hn hL63, rfl, rfl⟩
 
 /-- Non-vacuity: a full two-stage buffer of length 3 (two items in flight, wrapped indices). -/
 example :
